@@ -174,6 +174,121 @@ theorem C20_join_state_error_unreachable (s : St) :
   · have := (step_refused_iff s (.join t)).1 h
     simp [ht] at this
 
+/-! ### Literals and structural facts of the source that the model hard-codes (regenerated with `ast`) -/
+
+/-- **Every literal the model relies on is the source's.**  Default arguments (`bin_path`, `timeout`, `iteration`,
+`version_option`, `obey_rules`), comparison operators and constants of guards (`exit_code != 0`, `len(sequences) < 2`,
+`major_version != 3`, `major_version < 5`, `gap_penalty > 0`, `timeout is not None and … > timeout`, `not self._mbed`,
+`self._tree is None`), the order of checks and steps (validate-then-store in `set_gap_penalty`, request → `_contact` →
+`_request`, `start → join → get_alignment` in `align`), loop domains and index expressions of `MSAApp.evaluate`
+(`seq_dict[str(i)]`, length check *inside* the row loop, `_order[i] = int(seq_index)`), which process call `join` makes
+(`communicate(timeout=timeout)`), what `clean_up` does to the child (`kill()`), which directory `run` restores, MAFFT's
+label prefix pattern, the option strings of every command line (what the fake programs key on), the exception classes. -/
+theorem C20_gen_facts : BiotiteModel.Gen.C20.facts =
+    [("AppState.members", "CREATED,RUNNING,FINISHED,JOINED,CANCELLED"),
+     ("AppStateError.bases", "Exception"),
+     ("TimeoutError.bases", "Exception"),
+     ("VersionError.bases", "Exception"),
+     ("Application.join.defaults", "timeout=None"),
+     ("Application.join.loop-test", "self.get_app_state() != AppState.FINISHED"),
+     ("Application.join.timeout-test", "timeout is not None and time.time() - self._start_time > timeout"),
+     ("Application.get_app_state.tests", "self._state == AppState.RUNNING / self.is_finished()"),
+     ("LocalApp.__init__.exec_dir", "getcwd()"),
+     ("LocalApp.run.restores", "the directory read at entry"),
+     ("LocalApp.run.chdir-to", "self._exec_dir"),
+     ("LocalApp.run.command", "[self._bin_path] + self._options + self._arguments"),
+     ("LocalApp.join.defaults", "timeout=None"),
+     ("LocalApp.join.process-calls", "self._process.communicate(timeout=timeout)"),
+     ("LocalApp.evaluate.fail-op", "NotEq"),
+     ("LocalApp.evaluate.fail-const", "0"),
+     ("LocalApp.evaluate.raises", "SubprocessError"),
+     ("LocalApp.clean_up.test", "self.get_app_state() == AppState.CANCELLED and self._process is not None"),
+     ("LocalApp.clean_up.action", "self._process.kill()"),
+     ("LocalApp.is_finished.calls", "self._process.poll() / self._process.communicate()"),
+     ("get_version.defaults", "version_option='--version'"),
+     ("cleanup_tempfile.tolerates", "FileNotFoundError"),
+     ("localapp.imports-from-application", "AppState,AppStateError,Application,requires_state"),
+     ("MSAApp.__init__.defaults", "matrix=None"),
+     ("MSAApp.__init__.first-check", "len(sequences) Lt 2"),
+     ("MSAApp.__init__.raises-in-order", "ValueError,ValueError,ValueError,TypeError,TypeError,TypeError,TypeError"),
+     ("MSAApp.__init__.tempfile-suffixes", "'.fa','.fa','.mat'"),
+     ("MSAApp.evaluate.row-loop", "for i in range(len(self._sequences))"),
+     ("MSAApp.evaluate.row-lookup", "out_seq_str[i] = seq_dict[str(i)]"),
+     ("MSAApp.evaluate.length-check-in-loop", "len(out_seq_str[i].replace('-', '')) != len(self._sequences[i])"),
+     ("MSAApp.evaluate.length-check-raises", "ValueError"),
+     ("MSAApp.evaluate.order-loop", "for (i, seq_index) in enumerate(seq_dict): self._order[i] = int(seq_index)"),
+     ("MSAApp.evaluate.rows-size", "[None] * len(seq_dict)"),
+     ("MSAApp.run.names", "sequences_file[str(i)] = str(seq)"),
+     ("MSAApp.align.defaults", "bin_path=None,matrix=None"),
+     ("MSAApp.align.steps", "app.start / app.join / return app.get_alignment"),
+     ("MSAApp.get_matrix_file_path", "self._matrix_file.name if self._matrix is not None else None"),
+     ("ClustalOmegaApp.__init__.defaults", "bin_path='clustalo',matrix=None"),
+     ("ClustalOmegaApp.run.options", "--distmat-in,--distmat-out,--force,--full,--guidetree-in,--guidetree-out,--in,--out,--output-order=tree-order,--seqtype"),
+     ("ClustalOmegaApp.evaluate.tests", "not self._mbed / self._tree is None"),
+     ("ClustalOmegaApp.evaluate.distmat", "np.loadtxt skiprows=1"),
+     ("ClustalOmegaApp.evaluate.distmat-columns", "self._dist_matrix[:, 1:]"),
+     ("ClustalOmegaApp.get_distance_matrix.test", "self._mbed"),
+     ("ClustalOmegaApp.run.tests", "self.get_seqtype() == 'protein' / self._tree is None / not self._mbed / self._dist_matrix is not None / self._tree is not None"),
+     ("ClustalOmegaApp.super-matrix", "super().__init__(sequences, bin_path, None)"),
+     ("MuscleApp.__init__.defaults", "bin_path='muscle',matrix=None"),
+     ("MuscleApp.run.options", "-center,-gapextend,-gapopen,-hydrofactor,-in,-matrix,-out,-quiet,-seqtype,-tree1,-tree2"),
+     ("MuscleApp.version-probe", "get_version(bin_path, '-version')[0]"),
+     ("MuscleApp.version-test", "NotEq 3"),
+     ("MuscleApp.version-raises", "VersionError"),
+     ("MuscleApp.version-before-super", "True"),
+     ("MuscleApp.set_gap_penalty.branches", "[isinstance(gap_penalty, numbers.Real)] check,store,store | gap_penalty > 0 || [isinstance(gap_penalty, Sequence)] check,store,store | gap_penalty[0] > 0 or gap_penalty[1] > 0"),
+     ("MuscleApp.get_guide_tree.defaults", "iteration='identity'"),
+     ("MuscleApp.get_guide_tree.tests", "iteration == 'kmer'->return self._tree1 / iteration == 'identity'->return self._tree2"),
+     ("MuscleApp.run.gap-format", "{self._gap_ext:.1f},{self._gap_open:.1f}"),
+     ("MuscleApp.align.defaults", "bin_path=None,matrix=None,gap_penalty=None"),
+     ("Muscle5App.__init__.defaults", "bin_path='muscle'"),
+     ("Muscle5App.run.options", "-,-amino,-consiters,-nt,-output,-refineiters,-threads"),
+     ("Muscle5App.version-probe", "get_version(bin_path, '-version')[0]"),
+     ("Muscle5App.version-test", "Lt 5"),
+     ("Muscle5App.version-raises", "VersionError"),
+     ("Muscle5App.version-before-super", "True"),
+     ("Muscle5App.align.defaults", "bin_path='muscle'"),
+     ("MafftApp.__init__.defaults", "bin_path='mafft',matrix=None"),
+     ("MafftApp.run.options", "--aamatrix,--amino,--auto,--nuc,--quiet,--reorder,--treeout"),
+     ("MafftApp.prefix-pattern", "\\d*_"),
+     ("MafftApp.tree-file", "self.get_input_file_path() + '.tree'"),
+     ("MafftApp.evaluate.first-step", "with open(self.get_output_file_path(), 'w') as f:"),
+     ("TantanApp.__init__.defaults", "matrix=None,bin_path='tantan'"),
+     ("TantanApp.run.options", "-m,-p,-x"),
+     ("TantanApp.matrix-file-created", "matrix is None"),
+     ("WebApp.__init__.defaults", "obey_rules=True"),
+     ("RuleViolationError.bases", "Exception"),
+     ("BlastWebApp.wait_interval", "BlastWebApp._contact_delay"),
+     ("BlastWebApp.__init__.defaults", "database='nr',app_url=_ncbi_url,obey_rules=True,mail='padix.key@gmail.com'"),
+     ("BlastWebApp.run.order", "requests.get,self._contact,self._request"),
+     ("BlastWebApp.is_finished.order", "requests.get,self._contact"),
+     ("map_matrix.none-test", "matrix is None->TypeError"),
+     ("map_matrix.corner", "new_score_matrix[:old_length, :old_length] = matrix.score_matrix()")] := by decide +kernel
+
+/-- Value of a regenerated fact. -/
+def fact (k : String) : String := ((BiotiteModel.Gen.C20.facts.find? (·.1 = k)).map (·.2)).getD ""
+
+/-- Meaning of a Python comparison operator (`ast` class name) on integers. -/
+def cmpHolds (op : String) (a b : Int) : Bool :=
+  if op = "NotEq" then a ≠ b else if op = "Eq" then a = b else if op = "Lt" then a < b else if op = "LtE" then a ≤ b
+  else if op = "Gt" then a > b else if op = "GtE" then a ≥ b else false
+
+/-- Exit status the scripted programs end with. -/
+def exitStatus : Tool → Int
+  | .exit3 => 3 | .sigkill => -9 | _ => 0
+
+/-- **The model's "failing exit" is the source's test applied to the programs' exit statuses**: evaluating the regenerated
+operator and constant of `LocalApp.evaluate` (`exit_code != 0`) on 0, 3 and −9 gives exactly `failingExit`; and the model's
+states are the members of the regenerated `AppState` enum, in order. -/
+theorem C20_gen_exit_code_and_states :
+    (∀ t : Tool, cmpHolds BiotiteModel.Gen.C20.exitFailTest.1 (exitStatus t) BiotiteModel.Gen.C20.exitFailTest.2 = failingExit t) ∧
+    BiotiteModel.Gen.C20.minSequencesTest = ("Lt", 2) ∧
+    BiotiteModel.Gen.C20.muscle3VersionRefused = ("NotEq", 3) ∧ BiotiteModel.Gen.C20.muscle5VersionRefused = ("Lt", 5) ∧
+    ([AppState.created, .running, .finished, .joined, .cancelled].map AppState.name).foldl
+      (fun a b => if a = "" then b else a ++ "," ++ b) "" = fact "AppState.members" := by
+  refine ⟨fun t => ?_, by decide, by decide, by decide, by decide +kernel⟩
+  cases t <;> decide
+
 /-- The refusal branch of `requires_state` does not call `get_app_state()` / `is_finished()`. -/
 theorem C20_refusal_no_poll : refusalPolls = false := by decide
 
